@@ -204,6 +204,18 @@ pub fn fail_table() -> &'static [Error] {
             Error::new(ErrorCode::HardwareError),
             Error::new(ErrorCode::OutOfMemory),
         ]
+        .into_iter()
+        // device-defined numbers at and next to every class boundary, positive mirror images of the SCPI classes,
+        // and far-away values (the class of a number is decided by refm/errclass.rs, not by this table)
+        .chain(
+            [
+                99i16, 100, 101, 150, 199, 200, 250, 299, 300, 399, 400, 450, 499, 500, 599, 600, 699, 700, 799, 800, 850, 899, 900, 1000, 12345, -1, -99, -100, -101, -199, -200, -201, -299, -300, -301, -398, -400, -401,
+                -499, -500, -501, -599, -600, -699, -700, -799, -800, -801, -899, -900, -901, -25600, -25700, -26000, -26499, -32768,
+            ]
+            .into_iter()
+            .map(|c| Error::custom(c, b"Device defined")),
+        )
+        .collect::<Vec<Error>>()
     })
 }
 
